@@ -187,6 +187,65 @@ func (h *HolderPtrEmbedded) Check(nameOf func(any) string) []string {
 	return out
 }
 
+// An embedded mix-in whose value type happens to implement ConfigurationProperties (value receiver): it
+// carries no tag, it is looked into like every anonymous by-value struct, and its untagged fields are
+// not the container's to write. The same type as a *named, tagged* field is bound as a whole.
+type PrefixedMix struct {
+	Keep   string `yaml:"keep"`
+	Tagged string `value:"tv"`
+	Num    int    `yaml:"i"`
+	hidden int
+}
+
+func (PrefixedMix) Prefix() string { return "c11" }
+
+type HolderPrefixedEmbed struct {
+	PrefixedMix
+	Own string `value:"own"`
+}
+
+func (h *HolderPrefixedEmbed) Check(nameOf func(any) string) []string {
+	var out []string
+	if h.Keep != "SENTINEL" || h.Num != 4242 || h.hidden != 777 {
+		out = append(out, fmt.Sprintf("HolderPrefixedEmbed: untagged fields of the embedded mix-in were written: Keep=%q Num=%d hidden=%d", h.Keep, h.Num, h.hidden))
+	}
+	if h.Tagged != "tv" || h.Own != "own" {
+		out = append(out, fmt.Sprintf("HolderPrefixedEmbed: Tagged=%q (want tv) Own=%q (want own)", h.Tagged, h.Own))
+	}
+	return out
+}
+
+// Logger fields: the default prefix of a logger:"" field is the component, wherever the field is declared.
+type LogMix struct {
+	L syslog.Logger `logger:""`
+}
+type LogMixOuter struct {
+	LogMix
+	X string `value:"x"`
+}
+type HolderLogger struct {
+	LogMixOuter
+	Direct syslog.Logger `logger:""`
+	Named  syslog.Logger `logger:"custom-prefix"`
+}
+
+func (h *HolderLogger) Check(nameOf func(any) string) []string {
+	var out []string
+	if h.Direct == nil || h.L == nil || h.Named == nil {
+		return []string{fmt.Sprintf("HolderLogger: logger fields not set: Direct=%v embedded L=%v Named=%v", h.Direct, h.L, h.Named)}
+	}
+	pd, ok1 := PrefixOf(h.Direct)
+	pe, ok2 := PrefixOf(h.L)
+	pn, ok3 := PrefixOf(h.Named)
+	if ok1 && ok2 && pd != pe {
+		out = append(out, fmt.Sprintf("HolderLogger: logger:\"\" declared directly got prefix %q, the same tag two embedding levels down got %q", pd, pe))
+	}
+	if ok3 && pn != "custom-prefix" {
+		out = append(out, fmt.Sprintf("HolderLogger: logger:\"custom-prefix\" got prefix %q", pn))
+	}
+	return out
+}
+
 // NewEmbedFixtures returns fresh fixture holders with sentinels in the fields the container must not touch.
 func NewEmbedFixtures() []EmbedFixture {
 	a := &HolderFlat{u: 777, N: "SENTINEL"}
@@ -196,5 +255,7 @@ func NewEmbedFixtures() []EmbedFixture {
 	c.u, c.N = 777, "SENTINEL"
 	d := &HolderLowerChain{}
 	d.u, d.N = 777, "SENTINEL"
-	return []EmbedFixture{a, b, c, d, &HolderSiblings{}, &HolderPtrEmbedded{SharedState: &SharedState{V: "SENTINEL"}}}
+	return []EmbedFixture{a, b, c, d, &HolderSiblings{}, &HolderPtrEmbedded{SharedState: &SharedState{V: "SENTINEL"}},
+		&HolderLogger{},
+		&HolderPrefixedEmbed{PrefixedMix: PrefixedMix{Keep: "SENTINEL", Num: 4242, hidden: 777}}}
 }
